@@ -1012,6 +1012,7 @@ impl YaccParser<'_> {
                                                 ));
                                             }
                                             self.num_newlines += 1;
+                                            continue;
                                         }
                                         '*' => (),
                                         _ => continue,
@@ -2806,5 +2807,20 @@ Factor: ')' Expr ')';
                 }
             );
         }
+    }
+
+    #[test]
+    fn test_block_comment_with_line_starting_with_slash() {
+        // A line of a block comment that starts with '/' must not end the comment.
+        let src = "%%\nA: /* x \n/ 'b' */ 'a';";
+        let grm = parse(
+            YaccKind::Original(YaccOriginalActionKind::GenericParseTree),
+            src,
+        )
+        .unwrap();
+        assert_eq!(grm.prods.len(), 1);
+        assert_eq!(grm.prods[0].symbols.len(), 1);
+        assert!(grm.has_token("a"));
+        assert!(!grm.has_token("b"));
     }
 }
